@@ -2059,7 +2059,7 @@ def find_pairs_index_set(H):
 
 @op("neighbors")
 def neighbor_numbers_containers(H):
-    return [prs.calculate_neighbor_numbers(H["seqs_set"]), prs.calculate_neighbor_numbers(H["seqs_tuple"], reference=H["seqs_set"]),
+    return [sorted(prs.calculate_neighbor_numbers(H["seqs_set"]).tolist()), prs.calculate_neighbor_numbers(H["seqs_tuple"], reference=H["seqs_set"]),
             prs.calculate_neighbor_numbers(H["seqs_objarr"], reference=frozenset(H["seqs_set"])),
             prs.isdist1("CAAF", H["seqs_tuple"]), prs.nndist_hamming("CADD", H["seqs_set"])]
 
@@ -2767,6 +2767,13 @@ grid("powerlaw", "g_powerlaw_mle", _g_powerlaw,
 def _g_neighbors(H, fn, seqs, neighborhood):
     f = getattr(prs, fn)
     r = f(seqs, neighborhood=neighborhood) if neighborhood is not None else f(seqs)
+    if isinstance(seqs, (set, frozenset)):
+        # positions in a set are its iteration order, which depends on the interpreter's hash seed and is no part of any claim:
+        # keep what is order-free (the canonical value must be the same in every interpreter - determinism self-test)
+        if fn == "find_neighbor_pairs_index":
+            return len(r)
+        if fn == "calculate_neighbor_numbers":
+            return sorted(np.asarray(r).tolist())
     return sorted(r) if fn != "calculate_neighbor_numbers" else r
 
 
@@ -2896,3 +2903,258 @@ def _g_series_misc(H, fn, seqs):
 
 grid("pdist", "g_series_misc", _g_series_misc,
      dict(fn=[(x, x) for x in ("pdist", "pcDelta", "hclust", "pc", "neighbors")], seqs=SERIES_POOL), cap=20)
+
+
+# =============================================================================================
+# grids for the remaining public callables
+# =============================================================================================
+def _g_pdist(H, fn, a, b, metric, dtype):
+    kw = {"dtype": dtype}
+    if metric is not None:
+        kw["metric"] = metric
+    return prs.pdist(a, **kw) if fn == "pdist" else prs.cdist(a, b, **kw)
+
+
+grid("pdist", "g_pdist", _g_pdist,
+     dict(fn=[("pdist", "pdist"), ("cdist", "cdist")], a=SEQ_POOL + [("ser", "H:seqs_series"), ("tuple", "H:seqs_tuple")],
+          b=[("l2", "H:seqs_list2"), ("short", "H:seqs_short"), ("arr", "H:seqs_arr")], metric=[("def", None), ("cb", _CB)],
+          dtype=[("u8", np.uint8), ("f", float), ("i64", np.int64)]), cap=20, cb=cb_plain_lev)
+
+
+def _g_sets(H, fn, a, b):
+    return getattr(prs, fn)(a, b)
+
+
+grid("sets", "g_sets", _g_sets,
+     dict(fn=[("jaccard", "jaccard_index"), ("overlap", "overlap"), ("coef", "overlap_coefficient")],
+          a=[("list", "H:set_a"), ("series", "H:set_b"), ("set", "H:seqs_set"), ("arr", "H:seqs_arr"), ("tuple", "H:seqs_tuple")],
+          b=[("list", "H:set_a"), ("series", "H:set_b"), ("set", "H:seqs_set"), ("arr_b", "H:seqs_arr_b")]), cap=20)
+
+
+def _g_chao(H, fn, counts):
+    f = getattr(prs, fn)
+    return f(counts, 4) if fn.endswith("2") else f(counts)
+
+
+grid("chao", "g_chao", _g_chao,
+     dict(fn=[(x, x) for x in ("chao1", "var_chao1", "chao2", "var_chao2")],
+          counts=[("f", "H:f_counts"), ("single", "H:f_counts_single"), ("arr", "H:counts_arr"), ("list", "H:counts_list"), ("ro", "H:counts_readonly")]))
+
+
+def _g_pcn(H, fn, counts):
+    return getattr(prs, fn)(counts)
+
+
+grid("pc", "g_pc_n", _g_pcn,
+     dict(fn=[(x, x) for x in ("pc_n", "varpc_n", "stdpc_n")],
+          counts=[("arr", "H:counts_arr"), ("arr_b", "H:counts_arr_b"), ("ro", "H:counts_readonly"), ("series", "H:counts_series"), ("big", "H:counts_big")]))
+
+
+def _g_pc(H, a, b):
+    return prs.pc(a, b)
+
+
+grid("pc", "g_pc", _g_pc,
+     dict(a=SEQ_POOL + [("ser", "H:seqs_series"), ("tbl", "H:df_stats_nan"), ("cat", "H:df_categorical")],
+          b=[("none", None), ("l2", "H:seqs_list2"), ("arr", "H:seqs_arr"), ("tbl", "H:df_stats_nan")]), cap=16)
+
+
+def _g_neighborhood(H, fn, x, alphabet):
+    if fn == "lev":
+        return sorted(set(prs.levenshtein_neighbors(x, alphabet=alphabet)))
+    if fn == "ham":
+        return sorted(prs.hamming_neighbors(x, alphabet=alphabet))
+    if fn == "ham_var":
+        return sorted(prs.hamming_neighbors(x, alphabet=alphabet, variable_positions=H["varpos_list"]))
+    return sorted(prs.next_nearest_neighbors(x, lambda s: prs.hamming_neighbors(s, alphabet=alphabet), maxdistance=2))
+
+
+grid("neighbors", "g_neighborhood", _g_neighborhood,
+     dict(fn=[(x, x) for x in ("lev", "ham", "ham_var", "nnn")], x=[("CADK", "CADK"), ("CAAK", "CAAK"), ("AACC", "AACC")],
+          alphabet=[("AC", "AC"), ("ACDK", "ACDK"), ("list", ["A", "C", "D"])]), cap=14)
+
+
+def _g_nndist(H, seq, ref, maxdist):
+    return [prs.nndist_hamming(seq, ref, maxdist=maxdist), prs.isdist1(seq, ref), prs.isdist1(seq, ref, neighborhood=prs.hamming_neighbors)]
+
+
+grid("neighbors", "g_nndist", _g_nndist,
+     dict(seq=[("CAAA", "CAAA"), ("CADD", "CADD"), ("CKKA", "CKKA")], ref=[("set", "H:ref_set"), ("far", "H:ref_set_far"), ("tuple", "H:seqs_tuple")],
+          maxdist=[("1", 1), ("2", 2), ("3", 3)]), cap=12)
+
+
+def _g_density(H, data, discrete, sort, bins, cbar):
+    import matplotlib.pyplot as plt
+
+    fig, ax = plt.subplots()
+    d = H[data]
+    return pp.density_scatter(d[0], d[1], ax=ax, discrete=discrete, sort=sort, bins=bins, cbar=cbar)
+
+
+grid("density", "g_density", _g_density,
+     dict(data=[("pts", "xy_points"), ("disc", "xy_discrete")], discrete=[("F", False), ("T", True)], sort=[("T", True), ("F", False)],
+          bins=[("20", 20), ("5", 5)], cbar=[("F", False), ("T", True)]), cap=10)
+
+
+def _g_logos(H, seqs, color_scheme, spines):
+    kw = {}
+    if color_scheme is not None:
+        kw["color_scheme"] = color_scheme
+    if spines is not None:
+        kw["show_spines"] = spines
+    return pp.seqlogos(seqs, **kw)
+
+
+grid("logos", "g_logos", _g_logos,
+     dict(seqs=[("eq", "H:seqs_eqlen"), ("ser", "H:seqs_series_str")],
+          color_scheme=[("def", None), ("charge", "charge"), ("dict", "H:dict_colorscheme"), ("skylign", "skylign_protein")],
+          spines=[("def", None), ("T", True)]), cap=8, slow=True)
+
+
+def _g_label_axes(H, n, labels, style):
+    import matplotlib.pyplot as plt
+
+    fig, axes = plt.subplots(ncols=n)
+    kw = {} if labels is None else {"labels": labels}
+    pp.label_axes(fig if style == "fig" else np.atleast_1d(axes), labelstyle="%s)" if style != "fig" else r"%s", **kw)
+    return fig
+
+
+grid("labelaxes", "g_label_axes", _g_label_axes,
+     dict(n=[("1", 1), ("3", 3)], labels=[("def", None), ("list", ["x", "y"]), ("str", "abc")], style=[("fig", "fig"), ("axes", "axes")]))
+
+
+def _g_wlev(H, ins, dele, sub, a):
+    from pyrepseq.metric import WeightedLevenshtein
+
+    m = WeightedLevenshtein(insertion_weight=ins, deletion_weight=dele, substitution_weight=sub)
+    return [m.calc_pdist_vector(a), m.calc_cdist_matrix(a, H["seqs_short"])]
+
+
+grid("metric", "g_wlev", _g_wlev,
+     dict(ins=[("1", 1), ("2", 2)], dele=[("1", 1), ("3", 3)], sub=[("1", 1), ("2", 2)], a=[("arr", "H:seqs_arr"), ("list", "H:seqs_list"), ("ser", "H:seqs_series")]), cap=10)
+
+
+def _g_tcr_metric(H, cls, kw, df):
+    m = getattr(tm, cls)(**kw)
+    return [m.calc_pdist_vector(df), m.calc_cdist_matrix(df, H["df_tcr2"])]
+
+
+grid("metric", "g_tcr_metric", _g_tcr_metric,
+     dict(cls=[(x, x) for x in ("AlphaCdr3Levenshtein", "BetaCdr3Levenshtein", "Cdr3Levenshtein", "AlphaCdrLevenshtein", "BetaCdrLevenshtein", "CdrLevenshtein")],
+          kw=[("def", {}), ("ins2", {"insertion_weight": 2}), ("sub3", {"substitution_weight": 3})], df=[("tcr", "H:df_tcr"), ("tcr2", "H:df_tcr2")]), cap=14)
+
+
+def _g_tcr_weights(H, cls, kw):
+    m = getattr(tm, cls)(**kw)
+    return m.calc_cdist_matrix(H["df_tcr"], H["df_tcr2"])
+
+
+grid("metric", "g_tcr_weights", _g_tcr_weights,
+     dict(cls=[("Cdr3", "Cdr3Levenshtein"), ("Cdr", "CdrLevenshtein")],
+          kw=[("def", {}), ("a2", {"alpha_weight": 2}), ("b3", {"beta_weight": 3}), ("a2b3", {"alpha_weight": 2, "beta_weight": 3})]))
+grid("metric", "g_tcr_cdrweights", _g_tcr_weights,
+     dict(cls=[("ACdr", "AlphaCdrLevenshtein"), ("BCdr", "BetaCdrLevenshtein"), ("Cdr", "CdrLevenshtein")],
+          kw=[("c1", {"cdr1_weight": 2}), ("c2", {"cdr2_weight": 3}), ("c3", {"cdr3_weight": 2}), ("all", {"cdr1_weight": 2, "cdr2_weight": 2, "cdr3_weight": 2})]))
+
+
+def _g_valid(H, fn, values):
+    f = getattr(prs, fn)
+    return [f(v) for v in values]
+
+
+grid("valid", "g_valid", _g_valid,
+     dict(fn=[("aa", "isvalidaa"), ("cdr3", "isvalidcdr3")],
+          values=[("mixed", "H:mixed_values"), ("list", "H:seqs_list"), ("bad", "H:seqs_bad_letter"), ("short", "H:seqs_short")]))
+
+
+def _g_util(H, fn, seqs):
+    if fn == "regex":
+        return prs.seqs_to_regex(seqs, align=False)
+    if fn == "consensus":
+        return prs.seqs_to_consensus(seqs, align=False)
+    if fn == "numpy":
+        return prs.ensure_numpy(seqs)
+    return prs.convert_tuple_to_dataframe_if_necessary((seqs, seqs))
+
+
+grid("util", "g_util", _g_util,
+     dict(fn=[(x, x) for x in ("regex", "consensus", "numpy", "tuple")],
+          seqs=[("eq", "H:seqs_eqlen"), ("eq_ser", "H:seqs_series_str"), ("tuple", "H:seqs_tuple"), ("arr", "H:seqs_arr")]))
+
+
+def _g_background(H, return_bins):
+    return prs.load_pcDelta_background(return_bins=return_bins)
+
+
+grid("background", "g_background", _g_background, dict(return_bins=[("T", True), ("F", False)]), io=True)
+
+
+# more "the caller modifies what it was handed back" templates
+@op("graph")
+def own_graph_result_modified(H):
+    r = prs.graph_clustering(H["triplets_arr"], H["nodes_list"])
+    r.iloc[:, :] = 0
+    r2 = prs.graph_clustering(H["triplets_arr"], H["nodes_list"], clustering="DBSCAN")
+    r2.drop(r2.index, inplace=True)
+    return None
+
+
+@op("multimerge")
+def own_merge_result_modified(H):
+    r = prs.multimerge(H["dfs_indexed"], "index")
+    r.iloc[:, :] = -1
+    r2 = prs.multimerge(H["dfs_list"], "key", suffixes=H["suffixes_list"])
+    r2.drop(r2.index[:2], inplace=True)
+    return None
+
+
+@op("pc")
+def own_pc_tables_modified(H):
+    r = prs.pc_grouped_cross(H["df_stats"], "group", "a")
+    r.iloc[:, :] = 7.0
+    return None
+
+
+@op("powerlaw", rand=True)
+def own_powerlaw_sample_modified(H):
+    r = prs.powerlaw_sample(size=50, xmin=2, alpha=2.5)
+    r[:] = -1
+    return None
+
+
+@op("util")
+def own_util_results_modified(H):
+    a = prs.ensure_numpy(H["seqs_list"])
+    a[:] = "X"
+    b = prs.convert_tuple_to_dataframe_if_necessary((H["seqs_eqlen"], H["seqs_eqlen"]))
+    b.iloc[:, :] = "X"
+    c = prs.ensure_numpy(H["seqs_named_series"]).copy()
+    c[:] = "X"
+    return None
+
+
+@op("metric")
+def own_tcr_metric_results_modified(H):
+    a = H["metric_cdr3"].calc_cdist_matrix(H["df_tcr"], H["df_tcr2"])
+    a[:] = 0
+    b = H["metric_cdrall"].calc_pdist_vector(H["df_tcr"])
+    b[:] = 0
+    c = H["metric_wlev"].calc_cdist_matrix(H["seqs_series"], H["seqs_short"])
+    c[:] = 0
+    return None
+
+
+@op("clustermap", rand=True, slow=True)
+def own_clustermap_results_modified(H):
+    cg, linkage, cluster = pp.similarity_clustermap(H["df_cluster"])
+    linkage[:] = 0
+    cluster[:] = 0
+    return None
+
+
+@op("standardize")
+def own_standardized_nf_modified(H):
+    out = prs.standardize_dataframe(H["df_raw_nonfunctional"], tcr_enforce_functional=False, suppress_warnings=True)
+    out.iloc[:, :] = "changed"
+    return None
